@@ -213,9 +213,10 @@ example : distOKB tieWitness = true ∧ lapsSeqB lapPH tieWitness = true ∧ rec
     lapUniqueB lapPH tieWitness = true ∧ unitsDisagree lapPH 50 tieWitness = false ∧ unitsDisagree lapPH 150 tieWitness = false ∧
     recTimesIncB tieWitness = false ∧ conceal 50 50 tieWitness ≠ tieWitness := by decide +kernel
 
-/-- the class of the former KF-C20-4 with DEcreasing timestamps (now conforming): two records with decreasing timestamps (distances increasing), first 500 m and
-last 600 m concealed — the first revealed record of the start stage (record 2) is concealed by the end stage, and lap
-1, rewritten by the start stage with its coordinates, is not reached by the end stage, which goes by time -/
+/-- the class of the former KF-C20-4 with DEcreasing timestamps (two records, distances increasing, first 500 m and last
+600 m concealed: the first revealed record of the start stage — record 2 — is concealed by the end stage). Before /repo
+a90ed67 lap 1, rewritten by the start stage with record 2's coordinates, was not reached by the end stage, which goes by
+time; now the overlap makes the end stage strip every lap: the statement holds -/
 example :
     let r (ts lat d : Nat) := mkRec ts lat (lat + 1000) d
     let lap (a b : Nat) : Message :=
